@@ -1,1 +1,689 @@
-//! stub created by the lead so that the workspace always loads
+//! vzone — the small name universe of DESIGN.md 5.1 and the glue that materialises a zone
+//! through the REAL hickory server code (unsigned / NSEC-signed / NSEC3-signed, fixed keys).
+//!
+//! Small public API (used by C10, C08, C09; meant to be reused by C07 / C12):
+//!
+//! * [`universe`]`(depth)` – the names of U(d) (labels {a,b,*} below the origin `z.`).
+//! * [`Kind`], [`ZoneSpec`] – an abstract zone: origin + `(owner, node kind)` list. The apex
+//!   (SOA, NS -> `ns.o.`) is implicit. [`ZoneSpec::records`] is the one flat record list from
+//!   which BOTH the real zone and the reference zone are built (so they cannot drift apart).
+//! * [`family`]`(names, max_owners, kinds)` – every zone with <= max_owners owners (deterministic order).
+//! * [`ZoneSpec::reference`] – the same content as a `vref::zone::Zone` (reference model input).
+//! * [`ZoneSpec::query_names`] – the query-name universe "in and around the zone".
+//! * [`Signing`], [`build`] -> [`Built`] – `InMemoryZoneHandler<SimProvider>` filled with
+//!   `upsert_mut`, signed by the real `add_zone_signing_key_mut` + `secure_zone_mut`, wrapped in
+//!   a real `Catalog`; `Built::records` is the full dump including RRSIG / NSEC / NSEC3.
+//! * [`query_bytes`], [`ask`] – wire query -> `vsim::serve` (real `Catalog::handle_request`) -> `Message`.
+//! * [`ref_rr`], [`ref_name`], [`hname`] – conversions between hickory records and reference records.
+//! * [`zone_key`], [`anchors`] – the fixed Ed25519 key of a zone (derived from the origin), trust anchors.
+//! * [`Upstream`], [`validate`] – a scripted `DnsHandle` (virtual clock via `SimProvider`) and one
+//!   lookup through the real `DnssecDnsHandle` on top of it.
+//!
+//! Nothing in here judges anything: oracles live in the checks and in `vref`.
+
+use std::pin::Pin;
+use std::str::FromStr;
+use std::sync::{Arc, Mutex};
+use std::time::Duration;
+
+use futures_util::{stream, Stream, StreamExt};
+use hickory_net::dnssec::DnssecDnsHandle;
+use hickory_net::xfer::{DnsHandle, Protocol};
+use hickory_net::{DnsError, NetError};
+use hickory_proto::dnssec::crypto::Ed25519SigningKey;
+use hickory_proto::dnssec::rdata::{DNSSECRData, DNSKEY, DS, NSEC, NSEC3};
+use hickory_proto::dnssec::{DigestType, DnssecSigner, Proof, PublicKeyBuf, SigningKey, TrustAnchors};
+use hickory_proto::op::{DnsRequest, DnsRequestOptions, DnsResponse, Edns, Message, MessageType, OpCode, Query, ResponseCode};
+use hickory_proto::rr::rdata::{A, CNAME, MX, NS, SOA, TXT};
+use hickory_proto::rr::{Name, RData, Record, RecordType};
+use hickory_server::dnssec::NxProofKind;
+use hickory_server::store::in_memory::InMemoryZoneHandler;
+use hickory_server::zone_handler::{AxfrPolicy, Catalog, ZoneType};
+use serde_json::{json, Value};
+use vref::zone as rz;
+use vsim::SimProvider;
+
+pub const ORIGIN: &str = "z.";
+pub const TTL: u32 = 300;
+
+pub fn hname(s: &str) -> Name {
+    Name::from_str(s).unwrap()
+}
+
+// ------------------------------------------------------------------------------------------
+// universe and zone grammar
+
+/// U(d): all names `l1.….lk.<origin>` with 1 <= k <= d and li in {a, b, *}.
+pub fn universe_under(origin: &str, depth: usize) -> Vec<String> {
+    let mut out = vec![];
+    let mut last = vec![origin.to_string()];
+    for _ in 0..depth {
+        let mut next = vec![];
+        for base in &last {
+            for l in ["a", "b", "*"] {
+                next.push(format!("{l}.{base}"));
+            }
+        }
+        out.extend(next.iter().cloned());
+        last = next;
+    }
+    out
+}
+
+pub fn universe(depth: usize) -> Vec<String> {
+    universe_under(ORIGIN, depth)
+}
+
+/// Node kinds of the zone grammar (DESIGN 5.1).
+#[derive(Clone, Copy, PartialEq, Eq, Hash, Debug, PartialOrd, Ord)]
+pub enum Kind {
+    A,
+    Txt,
+    ATxt,
+    /// MX 10 a.z.
+    Mx,
+    /// CNAME -> a.z.
+    CnameA,
+    /// CNAME -> b.z.
+    CnameB,
+    /// CNAME -> a.a.z.
+    CnameAA,
+    /// CNAME -> x.o. (out of zone)
+    CnameOut,
+    /// insecure delegation, NS -> ns.o.
+    Ns,
+    /// insecure delegation, NS -> a.<owner> with glue A at a.<owner>
+    NsGlue,
+    /// secure delegation, NS -> ns.o. plus DS
+    NsDs,
+}
+
+pub const ALL_KINDS: [Kind; 11] = [
+    Kind::A,
+    Kind::Txt,
+    Kind::ATxt,
+    Kind::Mx,
+    Kind::CnameA,
+    Kind::CnameB,
+    Kind::CnameAA,
+    Kind::CnameOut,
+    Kind::Ns,
+    Kind::NsGlue,
+    Kind::NsDs,
+];
+
+impl Kind {
+    pub fn tag(self) -> &'static str {
+        match self {
+            Kind::A => "A",
+            Kind::Txt => "TXT",
+            Kind::ATxt => "A+TXT",
+            Kind::Mx => "MX",
+            Kind::CnameA => "CNAME>a.z.",
+            Kind::CnameB => "CNAME>b.z.",
+            Kind::CnameAA => "CNAME>a.a.z.",
+            Kind::CnameOut => "CNAME>x.o.",
+            Kind::Ns => "NS",
+            Kind::NsGlue => "NS+glue",
+            Kind::NsDs => "NS+DS",
+        }
+    }
+    pub fn from_tag(s: &str) -> Option<Kind> {
+        ALL_KINDS.iter().copied().find(|k| k.tag() == s)
+    }
+    pub fn is_delegation(self) -> bool {
+        matches!(self, Kind::Ns | Kind::NsGlue | Kind::NsDs)
+    }
+}
+
+/// One record of a zone in abstract form; interpreted twice (hickory `Record`, reference `Rr`).
+#[derive(Clone, PartialEq, Eq, Debug, Hash)]
+pub enum RecSpec {
+    Soa,
+    Ns(String),
+    A(u8),
+    Txt(String),
+    Mx(String),
+    Cname(String),
+    /// DS of the fixed key of the zone named like the owner
+    Ds,
+}
+
+#[derive(Clone, PartialEq, Eq, Debug, Hash)]
+pub struct ZoneSpec {
+    pub origin: String,
+    pub owners: Vec<(String, Kind)>,
+    /// raw extra records (parameter families outside the grammar, e.g. long CNAME chains)
+    pub extra: Vec<(String, RecSpec)>,
+}
+
+impl std::fmt::Display for ZoneSpec {
+    fn fmt(&self, f: &mut std::fmt::Formatter<'_>) -> std::fmt::Result {
+        write!(f, "{}{{", self.origin)?;
+        for (i, (o, k)) in self.owners.iter().enumerate() {
+            if i > 0 {
+                write!(f, ", ")?;
+            }
+            write!(f, "{o} {}", k.tag())?;
+        }
+        for (o, r) in &self.extra {
+            write!(f, "; {o} {r:?}")?;
+        }
+        write!(f, "}}")
+    }
+}
+
+impl ZoneSpec {
+    pub fn new(origin: &str, owners: &[(&str, Kind)]) -> ZoneSpec {
+        ZoneSpec { origin: origin.to_string(), owners: owners.iter().map(|(o, k)| (o.to_string(), *k)).collect(), extra: vec![] }
+    }
+    pub fn to_json(&self) -> Value {
+        let extra: Vec<Value> = self
+            .extra
+            .iter()
+            .map(|(o, r)| match r {
+                RecSpec::Soa => json!([o, "SOA", ""]),
+                RecSpec::Ns(t) => json!([o, "NS", t]),
+                RecSpec::A(i) => json!([o, "A", i.to_string()]),
+                RecSpec::Txt(t) => json!([o, "TXT", t]),
+                RecSpec::Mx(t) => json!([o, "MX", t]),
+                RecSpec::Cname(t) => json!([o, "CNAME", t]),
+                RecSpec::Ds => json!([o, "DS", ""]),
+            })
+            .collect();
+        json!({"origin": self.origin, "owners": self.owners.iter().map(|(o, k)| json!([o, k.tag()])).collect::<Vec<_>>(), "extra": extra})
+    }
+    pub fn from_json(v: &Value) -> Option<ZoneSpec> {
+        let mut owners = vec![];
+        for e in v["owners"].as_array()? {
+            owners.push((e[0].as_str()?.to_string(), Kind::from_tag(e[1].as_str()?)?));
+        }
+        let mut extra = vec![];
+        for e in v["extra"].as_array().map(|a| a.as_slice()).unwrap_or(&[]) {
+            let (o, t, d) = (e[0].as_str()?.to_string(), e[1].as_str()?, e[2].as_str()?.to_string());
+            let r = match t {
+                "SOA" => RecSpec::Soa,
+                "NS" => RecSpec::Ns(d),
+                "A" => RecSpec::A(d.parse().ok()?),
+                "TXT" => RecSpec::Txt(d),
+                "MX" => RecSpec::Mx(d),
+                "CNAME" => RecSpec::Cname(d),
+                "DS" => RecSpec::Ds,
+                _ => return None,
+            };
+            extra.push((o, r));
+        }
+        Some(ZoneSpec { origin: v["origin"].as_str()?.to_string(), owners, extra })
+    }
+
+    /// The flat record list. Owner i (1-based) gets RDATA that identifies it (A 10.0.0.i,
+    /// TXT "t<i>") so that a response shows which owner's data it carries.
+    pub fn records(&self) -> Vec<(String, RecSpec)> {
+        let mut v = vec![(self.origin.clone(), RecSpec::Soa), (self.origin.clone(), RecSpec::Ns("ns.o.".into()))];
+        for (i, (owner, kind)) in self.owners.iter().enumerate() {
+            let i = (i + 1) as u8;
+            let o = owner.clone();
+            match kind {
+                Kind::A => v.push((o, RecSpec::A(i))),
+                Kind::Txt => v.push((o, RecSpec::Txt(format!("t{i}")))),
+                Kind::ATxt => {
+                    v.push((o.clone(), RecSpec::A(i)));
+                    v.push((o, RecSpec::Txt(format!("t{i}"))));
+                }
+                Kind::Mx => v.push((o, RecSpec::Mx(format!("a.{}", self.origin)))),
+                Kind::CnameA => v.push((o, RecSpec::Cname(format!("a.{}", self.origin)))),
+                Kind::CnameB => v.push((o, RecSpec::Cname(format!("b.{}", self.origin)))),
+                Kind::CnameAA => v.push((o, RecSpec::Cname(format!("a.a.{}", self.origin)))),
+                Kind::CnameOut => v.push((o, RecSpec::Cname("x.o.".into()))),
+                Kind::Ns => v.push((o, RecSpec::Ns("ns.o.".into()))),
+                Kind::NsDs => {
+                    v.push((o.clone(), RecSpec::Ns("ns.o.".into())));
+                    v.push((o, RecSpec::Ds));
+                }
+                Kind::NsGlue => {
+                    let glue = format!("a.{o}");
+                    v.push((o, RecSpec::Ns(glue.clone())));
+                    // if the glue name is itself an owner of the spec, that owner's kind decides
+                    // what lives there (avoids A-next-to-CNAME conflicts)
+                    if !self.owners.iter().any(|(x, _)| *x == glue) {
+                        v.push((glue, RecSpec::A(100 + i)));
+                    }
+                }
+            }
+        }
+        v.extend(self.extra.iter().cloned());
+        v
+    }
+
+    /// The zone as the reference model sees it.
+    pub fn reference(&self) -> rz::Zone {
+        let mut z = rz::Zone::new(rz::Name::parse(&self.origin));
+        for (owner, rec) in self.records() {
+            let o = rz::Name::parse(&owner);
+            let (t, rd) = match rec {
+                RecSpec::Soa => (rz::T_SOA, rz::RData::Soa),
+                RecSpec::Ns(t) => (rz::T_NS, rz::RData::Ns(rz::Name::parse(&t))),
+                RecSpec::A(i) => (rz::T_A, rz::RData::A([10, 0, 0, i])),
+                RecSpec::Txt(s) => (rz::T_TXT, rz::RData::Txt(s.into_bytes())),
+                RecSpec::Mx(t) => (rz::T_MX, rz::RData::Mx(10, rz::Name::parse(&t))),
+                RecSpec::Cname(t) => (rz::T_CNAME, rz::RData::Cname(rz::Name::parse(&t))),
+                RecSpec::Ds => (rz::T_DS, rz::RData::Ds(ds_for(&owner).key_tag())),
+            };
+            z.add(&o, t, rd);
+        }
+        z
+    }
+
+    /// The same records as hickory `Record`s.
+    pub fn hickory_records(&self) -> Vec<Record> {
+        self.records()
+            .into_iter()
+            .map(|(owner, rec)| {
+                let o = hname(&owner);
+                let rd = match rec {
+                    RecSpec::Soa => RData::SOA(SOA::new(hname("ns.o."), hname("h.o."), 1, 1, 1, 1, TTL)),
+                    RecSpec::Ns(t) => RData::NS(NS(hname(&t))),
+                    RecSpec::A(i) => RData::A(A::new(10, 0, 0, i)),
+                    RecSpec::Txt(s) => RData::TXT(TXT::new(vec![s])),
+                    RecSpec::Mx(t) => RData::MX(MX::new(10, hname(&t))),
+                    RecSpec::Cname(t) => RData::CNAME(CNAME(hname(&t))),
+                    RecSpec::Ds => RData::DNSSEC(DNSSECRData::DS(ds_for(&owner))),
+                };
+                Record::from_rdata(o, TTL, rd)
+            })
+            .collect()
+    }
+
+    /// Query names "in and around the zone": the apex, U(depth) below the origin, one name out
+    /// of the zone, and a name below every delegation of the spec (already in U(depth) for
+    /// shallow cuts).
+    pub fn query_names(&self, depth: usize) -> Vec<String> {
+        let mut v = vec![self.origin.clone()];
+        v.extend(universe_under(&self.origin, depth));
+        v.push("x.o.".to_string());
+        for (o, k) in &self.owners {
+            if k.is_delegation() {
+                for l in ["a", "b"] {
+                    let below = format!("{l}.{o}");
+                    if !v.contains(&below) {
+                        v.push(below);
+                    }
+                }
+            }
+        }
+        v
+    }
+}
+
+/// Every zone with at most `max_owners` owners drawn from `names` (strictly increasing index
+/// order, so each owner set appears once) and kinds from `kinds`. NS kinds are not placed at
+/// wildcard owners (leftmost label `*`): RFC 4592 4.2 leaves NS at a wildcard undefined, so no
+/// oracle could judge it.
+pub fn family(origin: &str, names: &[String], max_owners: usize, kinds: &[Kind]) -> Vec<ZoneSpec> {
+    fn rec(
+        origin: &str,
+        names: &[String],
+        kinds: &[Kind],
+        start: usize,
+        left: usize,
+        cur: &mut Vec<(String, Kind)>,
+        out: &mut Vec<ZoneSpec>,
+    ) {
+        out.push(ZoneSpec { origin: origin.to_string(), owners: cur.clone(), extra: vec![] });
+        if left == 0 {
+            return;
+        }
+        for i in start..names.len() {
+            for k in kinds {
+                if k.is_delegation() && names[i].starts_with("*.") {
+                    continue;
+                }
+                cur.push((names[i].clone(), *k));
+                rec(origin, names, kinds, i + 1, left - 1, cur, out);
+                cur.pop();
+            }
+        }
+    }
+    let mut out = vec![];
+    rec(origin, names, kinds, 0, max_owners, &mut vec![], &mut out);
+    out
+}
+
+// ------------------------------------------------------------------------------------------
+// keys
+
+/// The fixed Ed25519 key of the zone `origin` (seed derived from the origin's text, so every
+/// run and every thread sees the same key; Ed25519 signatures are deterministic).
+fn key_pair(origin: &str) -> Ed25519SigningKey {
+    let mut seed = [0u8; 32];
+    let mut h: u64 = 0xcbf29ce484222325;
+    for (i, s) in seed.iter_mut().enumerate() {
+        for b in origin.to_ascii_lowercase().bytes().chain([i as u8, 0x5a]) {
+            h ^= b as u64;
+            h = h.wrapping_mul(0x100000001b3);
+        }
+        *s = (h >> 24) as u8;
+    }
+    let kp = ring::signature::Ed25519KeyPair::from_seed_unchecked(&seed).expect("ed25519 seed");
+    Ed25519SigningKey::from_ed25519(kp)
+}
+
+pub fn zone_key(origin: &str) -> (DnssecSigner, PublicKeyBuf) {
+    let k: Box<dyn SigningKey> = Box::new(key_pair(origin));
+    let pk = k.to_public_key().unwrap();
+    let signer = DnssecSigner::new(DNSKEY::from_key(&pk), k, hname(origin), Duration::from_secs(86400));
+    (signer, pk)
+}
+
+/// DS (SHA-256) of the fixed key of the zone `origin`.
+pub fn ds_for(origin: &str) -> DS {
+    let (_, pk) = zone_key(origin);
+    DS::from_key(&pk, &hname(origin), DigestType::SHA256).unwrap()
+}
+
+pub fn anchors(origins: &[&str]) -> Arc<TrustAnchors> {
+    let mut a = TrustAnchors::empty();
+    for o in origins {
+        a.insert(&zone_key(o).1);
+    }
+    Arc::new(a)
+}
+
+// ------------------------------------------------------------------------------------------
+// materialisation through the real server code
+
+#[derive(Clone, PartialEq, Eq, Debug, Hash)]
+pub enum Signing {
+    Unsigned,
+    Nsec,
+    Nsec3 { iterations: u16, salt: Vec<u8>, opt_out: bool },
+}
+
+impl Signing {
+    pub fn tag(&self) -> String {
+        match self {
+            Signing::Unsigned => "unsigned".into(),
+            Signing::Nsec => "nsec".into(),
+            Signing::Nsec3 { iterations, salt, opt_out } => format!(
+                "nsec3:i{iterations}:s{}:{}",
+                if salt.is_empty() { "-".to_string() } else { salt.iter().map(|b| format!("{b:02x}")).collect() },
+                if *opt_out { "optout" } else { "noopt" }
+            ),
+        }
+    }
+    pub fn from_tag(s: &str) -> Option<Signing> {
+        match s {
+            "unsigned" => Some(Signing::Unsigned),
+            "nsec" => Some(Signing::Nsec),
+            _ => {
+                let p: Vec<&str> = s.split(':').collect();
+                if p.len() != 4 || p[0] != "nsec3" {
+                    return None;
+                }
+                let iterations = p[1].strip_prefix('i')?.parse().ok()?;
+                let st = p[2].strip_prefix('s')?;
+                let salt = if st == "-" {
+                    vec![]
+                } else {
+                    (0..st.len() / 2).map(|i| u8::from_str_radix(&st[2 * i..2 * i + 2], 16).unwrap_or(0)).collect()
+                };
+                Some(Signing::Nsec3 { iterations, salt, opt_out: p[3] == "optout" })
+            }
+        }
+    }
+    pub fn is_signed(&self) -> bool {
+        !matches!(self, Signing::Unsigned)
+    }
+}
+
+pub struct Built {
+    pub spec: ZoneSpec,
+    pub signing: Signing,
+    /// every record of the zone after signing, RRSIGs included (RRSIGs follow their RRset)
+    pub records: Vec<Record>,
+    pub catalog: Catalog,
+}
+
+/// Build the zone with the real `InMemoryZoneHandler` (every `upsert_mut` must succeed) and,
+/// if requested, sign it with the real `add_zone_signing_key_mut` + `secure_zone_mut` at the
+/// current virtual time (`vsim::unix()`).
+pub fn build(spec: &ZoneSpec, signing: &Signing) -> Result<Built, String> {
+    let origin = hname(&spec.origin);
+    let nx = match signing {
+        Signing::Unsigned => None,
+        Signing::Nsec => Some(NxProofKind::Nsec),
+        Signing::Nsec3 { iterations, salt, opt_out } => Some(NxProofKind::Nsec3 {
+            algorithm: Default::default(),
+            salt: Arc::from(salt.clone().into_boxed_slice()),
+            iterations: *iterations,
+            opt_out: *opt_out,
+        }),
+    };
+    let mut zone = InMemoryZoneHandler::<SimProvider>::empty(origin.clone(), ZoneType::Primary, AxfrPolicy::Deny, nx);
+    for r in spec.hickory_records() {
+        let d = format!("{r}");
+        if !zone.upsert_mut(r, 1) {
+            return Err(format!("upsert refused: {d}"));
+        }
+    }
+    if signing.is_signed() {
+        let (signer, _) = zone_key(&spec.origin);
+        zone.add_zone_signing_key_mut(signer).map_err(|e| e.to_string())?;
+        zone.secure_zone_mut().map_err(|e| e.to_string())?;
+    }
+    let mut records = vec![];
+    for rs in zone.records_get_mut().values() {
+        for r in rs.records_with_rrsigs() {
+            records.push(r.clone());
+        }
+    }
+    let mut catalog = Catalog::new();
+    catalog.upsert(origin.into(), vec![Arc::new(zone)]);
+    Ok(Built { spec: spec.clone(), signing: signing.clone(), records, catalog })
+}
+
+pub fn rrsig_covers(r: &Record) -> Option<RecordType> {
+    match &r.data {
+        RData::DNSSEC(DNSSECRData::RRSIG(s)) => Some(s.input().type_covered),
+        _ => None,
+    }
+}
+
+impl Built {
+    /// The RRset (name, type) followed by the RRSIGs covering it.
+    pub fn rrset_with_sigs(&self, name: &Name, t: RecordType) -> Vec<Record> {
+        self.records
+            .iter()
+            .filter(|r| &r.name == name && (r.record_type() == t || rrsig_covers(r) == Some(t)))
+            .cloned()
+            .collect()
+    }
+    pub fn nsecs(&self) -> Vec<(Name, NSEC)> {
+        self.records
+            .iter()
+            .filter_map(|r| match &r.data {
+                RData::DNSSEC(DNSSECRData::NSEC(n)) => Some((r.name.clone(), n.clone())),
+                _ => None,
+            })
+            .collect()
+    }
+    pub fn nsec3s(&self) -> Vec<(Name, NSEC3)> {
+        self.records
+            .iter()
+            .filter_map(|r| match &r.data {
+                RData::DNSSEC(DNSSECRData::NSEC3(n)) => Some((r.name.clone(), n.clone())),
+                _ => None,
+            })
+            .collect()
+    }
+}
+
+// ------------------------------------------------------------------------------------------
+// queries
+
+pub fn rtype(t: u16) -> RecordType {
+    RecordType::from(t)
+}
+
+/// A standard query in wire form; with `dnssec_ok` an OPT record (payload 4096, DO=1) is added.
+pub fn query_bytes(qname: &str, qtype: u16, dnssec_ok: bool) -> Vec<u8> {
+    let mut m = Message::new(0x2a2a, MessageType::Query, OpCode::Query);
+    m.add_query(Query::new(hname(qname), rtype(qtype)));
+    if dnssec_ok {
+        let mut e = Edns::new();
+        e.set_max_payload(4096);
+        e.enable_dnssec();
+        m.set_edns(e);
+    }
+    m.to_vec().unwrap()
+}
+
+/// Wire query -> real `Catalog::handle_request` -> decoded response (exactly one expected).
+pub fn ask(rt: &tokio::runtime::Runtime, catalog: &Catalog, qname: &str, qtype: u16, dnssec_ok: bool) -> Result<Message, String> {
+    let q = query_bytes(qname, qtype, dnssec_ok);
+    let out = rt.block_on(vsim::serve(catalog, &q, Protocol::Udp)).ok_or("request did not parse")?;
+    if out.len() != 1 {
+        return Err(format!("{} responses", out.len()));
+    }
+    Message::from_vec(&out[0]).map_err(|e| format!("response undecodable: {e}"))
+}
+
+// ------------------------------------------------------------------------------------------
+// hickory -> reference conversions
+
+pub fn ref_name(n: &Name) -> rz::Name {
+    rz::Name::from_labels(n.iter().map(|l| l.to_vec()))
+}
+
+pub fn ref_rr(r: &Record) -> rz::Rr {
+    let t: u16 = r.record_type().into();
+    let rd = match &r.data {
+        RData::A(a) => rz::RData::A(a.0.octets()),
+        RData::NS(n) => rz::RData::Ns(ref_name(&n.0)),
+        RData::CNAME(c) => rz::RData::Cname(ref_name(&c.0)),
+        RData::MX(m) => rz::RData::Mx(m.preference, ref_name(&m.exchange)),
+        RData::TXT(t) => rz::RData::Txt(t.txt_data.iter().flat_map(|s| s.iter().copied()).collect()),
+        RData::SOA(_) => rz::RData::Soa,
+        RData::DNSSEC(DNSSECRData::DS(d)) => rz::RData::Ds(d.key_tag()),
+        o => rz::RData::Other(format!("{o}")),
+    };
+    rz::Rr { owner: ref_name(&r.name), rtype: t, rdata: rd }
+}
+
+// ------------------------------------------------------------------------------------------
+// the real validator over a scripted upstream
+
+type Script = dyn Fn(&Query) -> Option<Message> + Send + Sync;
+
+/// A scripted upstream: answers every request from a closure (None => empty NOERROR response).
+/// Its runtime is `SimProvider`, so the validator's clock is the virtual wall clock.
+#[derive(Clone)]
+pub struct Upstream {
+    pub script: Arc<Script>,
+    pub log: Arc<Mutex<Vec<String>>>,
+}
+
+impl Upstream {
+    pub fn new(f: impl Fn(&Query) -> Option<Message> + Send + Sync + 'static) -> Upstream {
+        Upstream { script: Arc::new(f), log: Default::default() }
+    }
+}
+
+impl DnsHandle for Upstream {
+    type Response = Pin<Box<dyn Stream<Item = Result<DnsResponse, NetError>> + Send>>;
+    type Runtime = SimProvider;
+    fn send(&self, request: DnsRequest) -> Self::Response {
+        let q = request.queries[0].clone();
+        self.log.lock().unwrap().push(format!("{} {}", q.name, q.query_type));
+        let mut m = match (self.script)(&q) {
+            Some(m) => m,
+            None => {
+                let mut m = Message::new(0, MessageType::Response, OpCode::Query);
+                m.add_query(q.clone());
+                m
+            }
+        };
+        m.metadata.id = request.id;
+        m.metadata.message_type = MessageType::Response;
+        Box::pin(stream::once(async move { DnsResponse::from_message(m).map_err(NetError::from) }))
+    }
+}
+
+/// Outcome of one lookup through the real `DnssecDnsHandle`.
+#[derive(Clone, Debug, PartialEq, Eq)]
+pub enum E2e {
+    /// the response came back; proofs of the answer and authority records as marked by the validator
+    Accepted { rcode: ResponseCode, answers: Vec<(RecordType, Proof)>, authorities: Vec<(RecordType, Proof)> },
+    /// rejected with `DnsError::Nsec { proof }`
+    NsecRejected(Proof),
+    /// any other error
+    Error(String),
+}
+
+impl E2e {
+    /// "Accepted as Secure": the response was returned and every authority and answer record
+    /// carries Proof::Secure (and there is at least one record).
+    pub fn is_secure(&self) -> bool {
+        match self {
+            E2e::Accepted { answers, authorities, .. } => {
+                (!answers.is_empty() || !authorities.is_empty())
+                    && answers.iter().chain(authorities.iter()).all(|(_, p)| *p == Proof::Secure)
+            }
+            _ => false,
+        }
+    }
+    pub fn class(&self) -> String {
+        match self {
+            E2e::Accepted { .. } if self.is_secure() => "secure".into(),
+            E2e::Accepted { answers, authorities, .. } => {
+                let mut ps: Vec<String> =
+                    answers.iter().chain(authorities.iter()).map(|(_, p)| format!("{p:?}").to_lowercase()).collect();
+                ps.sort();
+                ps.dedup();
+                format!("accepted[{}]", ps.join("+"))
+            }
+            E2e::NsecRejected(p) => format!("nsec-{}", format!("{p:?}").to_lowercase()),
+            E2e::Error(e) => format!("error:{e}"),
+        }
+    }
+}
+
+/// One lookup of `query` through a fresh-or-shared real `DnssecDnsHandle` over `upstream`.
+pub fn validate_with(
+    rt: &tokio::runtime::Runtime,
+    handle: &DnssecDnsHandle<Upstream>,
+    query: Query,
+) -> E2e {
+    let r = rt.block_on(async { handle.lookup(query, DnsRequestOptions::default()).next().await });
+    match r {
+        None => E2e::Error("no response".into()),
+        Some(Ok(resp)) => E2e::Accepted {
+            rcode: resp.response_code,
+            answers: resp.answers.iter().map(|r| (r.record_type(), r.proof)).collect(),
+            authorities: resp.authorities.iter().map(|r| (r.record_type(), r.proof)).collect(),
+        },
+        Some(Err(NetError::Dns(DnsError::Nsec { proof, .. }))) => E2e::NsecRejected(proof),
+        Some(Err(e)) => {
+            let s = e.to_string();
+            E2e::Error(s.chars().take(60).collect())
+        }
+    }
+}
+
+pub fn validator(upstream: Upstream, anchors: Arc<TrustAnchors>, limits: Option<(u16, u16)>) -> DnssecDnsHandle<Upstream> {
+    let h = DnssecDnsHandle::with_trust_anchor(upstream, anchors);
+    match limits {
+        Some((soft, hard)) => h.nsec3_iteration_limits(Some(soft), Some(hard)),
+        None => h,
+    }
+}
+
+pub fn validate(
+    rt: &tokio::runtime::Runtime,
+    upstream: Upstream,
+    anchors: Arc<TrustAnchors>,
+    query: Query,
+    limits: Option<(u16, u16)>,
+) -> E2e {
+    validate_with(rt, &validator(upstream, anchors, limits), query)
+}
